@@ -49,6 +49,9 @@ THEOREMS = [
     "XalanModel.Props.C06.reset_restores_partial",
     "XalanModel.Props.C06.start_state_independent_partial",
     "XalanModel.Props.C06.sticky_untouched",
+    "XalanModel.Props.C06.guard_sites_all_guarded",
+    "XalanModel.Props.C06.scope_guard_restores",
+    "XalanModel.Props.C06.guarded_members_stay_fresh",
     "XalanModel.Props.C06.reset_restores_objstack_counterexample",
     "XalanModel.Props.C06.varstack_index_counterexample",
     "XalanModel.Props.C06.varstack_index_restored",
@@ -120,7 +123,7 @@ class Runner:
         self.harness, self.model, self.work = harness, model, work
         self.n = 0
 
-    def run(self, histories, tag, fresh_from="S"):
+    def run(self, histories, tag, fresh_from="S", _depth=0):
         """histories: list of op lists. Returns list of per-history dicts:
            {status: ok|differs|model|crash, at: index, detail..., transforms: [...]}"""
         self.n += 1
@@ -238,6 +241,12 @@ class Runner:
                     res[hi].update(status="model", at=k - 1, detail="op %r: implementation %r, model %r" % (o, hv[:200], mv[:200]))
                     dead.add(hi)
         clean_exit = p.returncode == 0
+        # a crash loses everything after it: run the remaining histories in a new process (bounded number of restarts)
+        crashed = [i for i, x in enumerate(res) if x["status"] == "crash"]
+        if crashed and _depth < 6 and crashed[0] + 1 < len(histories) and tag not in ("shrink", "classify", "objleft"):
+            k = crashed[0] + 1
+            res2, _, _, _ = self.run(histories[k:], tag + "_r", fresh_from=fresh_from, _depth=_depth + 1)
+            res[k:] = res2
         return res, clean_exit, herr, hreq
 
 
